@@ -48,7 +48,7 @@ def src(n):
     if k == "switch":
         parts = ["{{#switch:" + src(n[1])]
         for case, v in n[2]:
-            parts.append(case + "=" + src(v))
+            parts.append(case if v is None else case + "=" + src(v))
         if n[3] is not None:
             parts.append("#default=" + src(n[3]))
         return "|".join(parts) + "}}"
@@ -100,8 +100,13 @@ class Ref:
             return add_newline(self.ex(n[3] if a == b else n[4], frame).strip())
         if k == "switch":
             v = self.ex(n[1], frame).strip()
+            latched = False
             for case, node in n[2]:
-                if case.strip() == v:
+                if node is None:                       # bare case: falls through to the next keyed result
+                    if case.strip() == v:
+                        latched = True
+                    continue
+                if latched or case.strip() == v:
                     return add_newline(self.ex(node, frame).strip())
             return add_newline(self.ex(n[3], frame).strip()) if n[3] is not None else ""
         if k == "call":
@@ -146,8 +151,12 @@ def gen(depth, names, in_body, allow_ws=True):
     if r < 0.88:
         return ("ifeq", gen(depth - 1, names, in_body), ("t", rng.choice(["x", "w", ""])), ("t", "same"), ("t", "diff"))
     if r < 0.94:
-        return ("switch", gen(depth - 1, names, in_body, False),
-                [("x", ("t", "cx")), ("w", gen(depth - 1, names, in_body))], ("t", "dflt") if rng.random() < 0.6 else None)
+        cases = rng.choice([
+            [("x", ("t", "cx")), ("w", gen(depth - 1, names, in_body))],
+            [("x", None), ("yz", None), ("w", ("t", "grp"))],
+            [("1", None), ("x", ("t", "g1")), ("w", None), ("yz", ("t", "g2"))],
+        ])
+        return ("switch", gen(depth - 1, names, in_body, False), cases, ("t", "dflt") if rng.random() < 0.6 else None)
     return ("seq", [gen(depth - 1, names, in_body), ("t", rng.choice(["", " ", "-"])), gen(depth - 1, names, in_body)])
 
 
